@@ -628,6 +628,23 @@ let rec predict_inner (c : string) (obs : string) : string * string * bool =
       let getb k = (match List.assoc_opt k vals with Some (`Val v) -> v = "1" | _ -> false) in
       let k = k_acq in
       let zn z = n_of_zt (zt_of_z z) in
+      let pr_grpc rs =
+        let rec pr n = function
+          | [] -> [if n >= k then "more" else "truncated"]
+          | PDeliver (t, cl) :: r -> Printf.sprintf "G:%s:%s" (hex_of_bytes t) (hex_of_bytes cl) :: pr (n + 1) r
+          | PInvalid :: r -> "GI" :: pr (n + 1) r
+          | PErr0 :: _ -> ["err"]
+          | PDone :: _ -> ["ok"] in
+        String.concat " " (pr 0 rs) in
+      (* SPECIFICATION for a grpc/json file with an entry the line scanner refuses (longer than maxammosize / 64 KiB):
+         refused_spec — no pass loop, no Passes: the accepted lines in front of it are delivered (up to the limit) and
+         then the run FAILS; C13_grpcjson_refused_entry_* tie it to the model *)
+      let refused =
+        if ptype = "grpc/json" && List.for_all (fun (_, v) -> match v with `Val _ -> true | _ -> false) vals then
+          (match grpc_refused_expected unmarshal (getb "continueonerror") (get "limit") (get "passes") (get "maxammosize") (nat_of_int k) fileb with
+           | Some rs -> Some (pr_grpc rs)
+           | None -> None)
+        else None in
       let p =
         if List.exists (fun (_, v) -> v = `Miss) vals then "oracle-miss"
         else if List.exists (fun (_, v) -> v = `Panic) vals then "panic"
@@ -657,14 +674,7 @@ let rec predict_inner (c : string) (obs : string) : string * string * bool =
         else if ptype = "grpc/json" then
           (match grpc_provider unmarshal (getb "continueonerror") (get "limit") (get "passes") (get "maxammosize") (nat_of_int k) fileb with
            | None -> "newerr"
-           | Some rs ->
-               let rec pr n = function
-                 | [] -> [if n >= k then "more" else "truncated"]
-                 | PDeliver (t, cl) :: r -> Printf.sprintf "G:%s:%s" (hex_of_bytes t) (hex_of_bytes cl) :: pr (n + 1) r
-                 | PInvalid :: r -> "GI" :: pr (n + 1) r
-                 | PErr0 :: _ -> ["err"]
-                 | PDone :: _ -> ["ok"] in
-               String.concat " " (pr 0 rs))
+           | Some rs -> pr_grpc rs)
         else if scen then
           (match opt_accept OUint (get "limit"), opt_accept OUint (get "passes"), opt_accept OInt (get "maxammosize") with
            | Some l, Some ps, Some _ ->
@@ -685,7 +695,12 @@ let rec predict_inner (c : string) (obs : string) : string * string * bool =
       let v =
         if bad_status st then "BAD:" ^ site_of c ^ " outcome " ^ st
         else if neg && st <> "newerr" then "BAD:" ^ site_of c ^ " negative-limit-or-passes-not-rejected outcome " ^ st
-        else "ok" in
+        else (match refused with
+              | Some e when status_of e = "err" && st <> "err" ->
+                  "BAD:" ^ site_of c ^ " refused-entry-not-rejected outcome " ^ st ^ " (an entry too long for the scanner must end the run with an error)"
+              | Some e when e <> obs && st <> "oracle-miss" ->
+                  "BAD:" ^ site_of c ^ " refused-entry-deliveries expected " ^ e
+              | _ -> "ok") in
       (p, v, true)
   | (("pfx" | "trunc" | "badhdr") as kind) :: fmt :: file :: ngood :: toks ->
       let toks = List.filter (fun t -> t <> "") toks in
